@@ -27,6 +27,9 @@ MassFails(ev) ==
              want == PrecursorMass(ev.A, z, EffAdducts(ev), ev.iso, ev.loss, ev.mono, FALSE)
              tol == FAdd(BaseTol(ev.mono), HalfUlp(ev.prec)) IN
          (IF ev.res2 # ev.res THEN {"second_identical_call_returns_another_value"} ELSE {}) \cup
+         (* a result asked for with precision p (0 included) is a multiple of 10^-p *)
+         (IF ev.prec >= 0 /\ ev.prec <= 8 /\ LET unit == Pow10(9 - ev.prec)  r == ev.res[2] % unit IN r > 2 /\ unit - r > 2
+          THEN {"result_not_rounded_to_the_precision"} ELSE {}) \cup
          IF ev.call = "mass"
          THEN (IF FWithin(ev.res, want, tol) THEN {} ELSE {"mass_is_not_sum_of_parts"})
          ELSE IF z > 0 THEN (IF FWithin(FMulInt(ev.res, z), want, FMulInt(tol, z)) THEN {} ELSE {"mz_times_z_is_not_mass"})
@@ -123,6 +126,7 @@ AllModsOf(X) == X.labile \o X.static \o X.isotope \o X.unknown \o X.nterm \o X.c
                 \o FoldLeft(LAMBDA acc, iv : acc \o iv.mods, <<>>, X.intervals)
 PrecUnit(prec) == IF prec >= 9 THEN Nano(1) ELSE <<0, Pow10(9 - prec)>>
 NonZeroSem(mods) == LET sm == SemSum(mods) IN sm.ok /\ ~FWithin(SemMass(sm, TRUE), FZero, Micro(10))
+IsFormulaValue(v) == Len(v) > 10 /\ SubSeq(v, 1, 10) = "s:Formula:" /\ \A k \in 1..Len(v) : SubSeq(v, k, k) \notin {"|", "#"}
 CondenseFails(ev) ==
     LET A == ev.A  n == NRes(A)  out == ev.parsed
         X == CondenseStatic(A, StaticRules(A))
@@ -144,6 +148,13 @@ CondenseFails(ev) ==
          \cup (IF A = EmptyAnn(A.seq) /\ ev.res # ev.text THEN {"unmodified_peptide_changed"} ELSE {})
          \cup (IF ev.again # ev.res THEN {"second_call_on_the_same_object_differs"} ELSE {})
          \cup (IF ev.argText # ev.text THEN {"argument_object_changed"} ELSE {})
+         (* a labile group made of formulas only weighs exactly what its atoms weigh: the written labile shift is that *)
+         (* mass rounded to the precision asked for (one unit of the last decimal)                                     *)
+         \cup (IF A.labile # <<>> /\ labs = <<>> /\ (\A q \in 1..Len(A.labile) : IsFormulaValue(A.labile[q].v))
+                  /\ SemSum(A.labile).ok /\ out.labile # <<>>
+                  /\ ~FWithin(FSum([ q \in 1..Len(out.labile) |-> FMulInt(DecimalFix(Body(out.labile[q].v)), out.labile[q].m) ]),
+                              SemMass(SemSum(A.labile), TRUE), FAdd(PrecUnit(ev.prec), Nano(5)))
+               THEN {"labile_shift_not_rounded_to_the_precision"} ELSE {})
          (* shifts sit on the residues and termini that were modified *)
          \cup (IF localised /\ \E p \in 0..(n - 1) : NonZeroSem(ModsAt(X, p)) /\ labs = <<>> /\ ModsAt(out, p) = <<>>
                THEN {"modified_residue_has_no_shift"} ELSE {})
